@@ -5,4 +5,5 @@ MC_NoSets == << >>
 MC_NoPaths == [x \in {} |-> << >>]
 MC_LineAny(i, d, ic, a, c) == TRUE
 MC_SolveAny(ss, st) == TRUE
+MC_EditAny(ed, st) == TRUE
 =============================================================================
